@@ -97,9 +97,10 @@ class Pipe(Source):
         self.delivered_total = 0
         self.written_total = 0
         self.dead = False
+        self.cut_pending = False
 
     def push(self, kind, data=b''):
-        if self.dead:
+        if self.dead or self.cut_pending:
             return
 
         now = self.conn.net.sim.loop.time()
@@ -430,8 +431,11 @@ class SimTransport(asyncio.Transport):
             return
 
         self._closing = True
-        self.out.dead = True
-        self.out.items.clear()
+
+        if not self.out.cut_pending:
+            self.out.dead = True
+            self.out.items.clear()
+
         self._call_connection_lost(
             ConnectionResetError(errno.ECONNRESET,
                                  'Connection reset by peer'))
@@ -473,6 +477,22 @@ class SimConnection:
             pipe.stalled = False
             pipe.items.append([RST if how == 'rst' else EOF,
                                self.net.sim.loop.time(), b''])
+            pipe.cut_pending = True
+
+    def cut_after_delivery(self, pipe, how):
+        """Cut once everything currently queued on `pipe` was delivered (the
+           other direction is cut at the same moment)"""
+
+        self.net.sim.stats['cut_' + how] += 1
+        kind = RST if how == 'rst' else EOF
+        now = self.net.sim.loop.time()
+        pipe.items.append([kind, now + pipe.latency, b''])
+        pipe.cut_pending = True
+        other = self.s2c if pipe is self.c2s else self.c2s
+        other.items.clear()
+        other.undelivered = 0
+        other.items.append([kind, now + other.latency, b''])
+        other.cut_pending = True
 
     def stall(self, direction=None, on=True):
         for pipe in (self.c2s, self.s2c):
@@ -821,3 +841,84 @@ class SimNet:
 
     async def connect_write_pipe(self, protocol_factory, pipe):
         raise NotImplementedError
+
+
+class Wire:
+    """On-path party base class: sees every transport.write() of both
+       directions (asyncssh emits exactly one SSH packet per write) and
+       decides what goes into the pipe."""
+
+    def __init__(self, conn):
+        self.conn = conn
+        self.count = {conn.c2s: 0, conn.s2c: 0}
+        self.bytes = {conn.c2s: 0, conn.s2c: 0}
+        conn.wire = self
+
+    def dirname(self, pipe):
+        return 'c2s' if pipe is self.conn.c2s else 's2c'
+
+    def on_write(self, pipe, data):
+        self.count[pipe] += 1
+        self.bytes[pipe] += len(data)
+        self.forward(pipe, data, self.count[pipe] - 1)
+
+    def forward(self, pipe, data, index):
+        pipe.push(DATA, data)
+
+    def on_ctl(self, pipe, kind):
+        pipe.push(kind)
+
+
+class CutWire(Wire):
+    """Loses the connection (reset / EOF to both ends, or a stall of both
+       directions) once `index` writes of `direction` have passed and `off`
+       further bytes of the next one."""
+
+    def __init__(self, conn, direction, index, off, how):
+        super().__init__(conn)
+        self.direction = direction
+        self.index = index
+        self.off = off
+        self.how = how
+        self.fired = False
+
+    def forward(self, pipe, data, index):
+        if self.fired and self.how == 'stall':
+            return
+
+        if not self.fired and self.dirname(pipe) == self.direction and \
+                index >= self.index:
+            self.fired = True
+            sim = self.conn.net.sim
+            sim.stats['fault_' + self.how] += 1
+            sim.log('fault', self.how, self.direction, index)
+            part = data[:min(self.off, len(data))]
+
+            if self.how == 'stall':
+                if part:
+                    pipe.push(DATA, part)
+
+                # nothing more is ever delivered either way
+                self.conn.c2s.stalled_after = True
+                self.conn.blackhole = True
+                return
+
+            if part:
+                pipe.push(DATA, part)
+                # let the partial packet arrive first, then lose the link
+                self.conn.cut_after_delivery(pipe, self.how)
+            else:
+                self.conn.cut(self.how)
+
+            return
+
+        if getattr(self.conn, 'blackhole', False):
+            return
+
+        pipe.push(DATA, data)
+
+    def on_ctl(self, pipe, kind):
+        if getattr(self.conn, 'blackhole', False):
+            return
+
+        pipe.push(kind)
